@@ -46,7 +46,7 @@ def _own_floors(tier):
             "measure:random": 100, "measure:deterministic": 100, "outcome:0": 100, "outcome:1": 100, "shape:gate_after_reset": 20,
             "setting:0": 500, "setting:1": 500, "setting:probabilistic": 500, "initial_state:given": 200, "programs:with_insert_at": 100,
             "kind:MR": 100, "kind:MZ": 100, "kind:cCNOT": 50, "kind:cCZ": 50, "kind:W": 200, "kind:CZ": 100, "programs:one_qubit": 5, "programs:large_n": 30,
-            "programs:with_noise_annotations": 150, "programs:wrapper_with_one_noise_object": 40}
+            "programs:with_noise_annotations": 150, "compile:noise_simulation_on_without_noise": 300, "programs:wrapper_with_one_noise_object": 40}
 
 
 def gen_program(rng, nmax, lmax):
@@ -135,6 +135,7 @@ def run_program(pseed, nmax, lmax, ctx, mon, state, only=None):
         ctx.count("programs:large_n")
     use_init = rng.random() < 0.25
     init_group = pauli.random_stabilizer_group(rng, n) if use_init else None
+    noise_flag = (not use_init) and not any(o.noise is not None for o in prog.ops) and (pseed[-1] % 3 == 0)
     for ci, (backend, det) in enumerate(configs):
         if only is not None and ci != only:
             continue
@@ -151,6 +152,12 @@ def run_program(pseed, nmax, lmax, ctx, mon, state, only=None):
         state["case"] = case
         comp = m[backend]()
         comp.measurement_determinism = det
+        if noise_flag:
+            # noise simulation switched on for a circuit that carries no noise: other code paths (the stabilizer backend then
+            # holds a one-component mixture), same state, same respect for the forced outcome
+            comp.noise_simulation = True
+            ctx.count("compile:noise_simulation_on_without_noise")
+            case["noise_simulation"] = True
         np.random.seed(cseed)
         initial = None
         init_ref = None
